@@ -128,6 +128,25 @@ CHECKS = {
         "note": ("Helper-stub frames (def-call wrappers) have no line fixed by the statement: expected frames are matched as an ordered "
                  "subsequence. Subjects sampled (192 quick / 4.8k thorough)."),
     },
+    "C19": {
+        "level": "exploration",
+        "technique": "grammar-based generation of typed Python expressions / statement blocks / literal layouts; differential against CPython (ast round trip, eval / exec, symtable)",
+        "text": ("(1) Random typed CPython AST expressions (depth <= 5, every operator, conditional expressions and lambdas in operand / callee "
+                 "position, starred and double-starred arguments and displays, f-strings, walrus, slices, comprehensions, lambdas with every "
+                 "parameter kind) are placed as def / nested def / keyword-only / block / page argument defaults and as arguments of filter calls: "
+                 "the source mako re-emits must parse to the same AST and the value seen through a rendered template must equal eval() of the "
+                 "original. (2) Statement blocks (assignments, loops with else, try / with, nested functions with every parameter kind, "
+                 "comprehensions, imports, class-free scoping cases) in <% %>: symtable says which names the block reads without binding; under "
+                 "strict_undefined the template must render with exactly those names in the context, raise NameError naming the one that is "
+                 "removed, and compute the values native exec computes. (3) Blocks with triple-quoted / escaped / continued string literals, "
+                 "comments containing quotes, backslash continuations and raw tabs at margins of 0..12 spaces, tabs or both in <% %> and <%! %>: "
+                 "the values must be those CPython computes for the block as written. Every root cause found has a dedicated probe list that "
+                 "runs first on every run."),
+        "note": ("Trusted: CPython's ast / symtable / eval as reference, the grammar in vf/gen/pygram.py. Python 3.12-only quote reuse inside "
+                 "f-strings is checked for re-emission but not placed in templates (delimiting ${} around it is the lexer's concern). Classes, "
+                 "decorators, annotations, global / nonlocal, await / yield and match statements are not generated here (C04's statement forms "
+                 "cover class bodies and decorators)."),
+    },
     "C20": {
         "level": "exploration",
         "technique": "hypothesis-generated templates built line by line with a layout map; by-construction expected (line, function, messages, comments) compared both ways for Babel and Lingua",
